@@ -231,6 +231,12 @@ _GROUPING_OPERATOR_MAP = {
 }
 
 
+# The system variables that are not bound here: using one of them gives a missing value
+# ($$REMOVE is exactly that), any other name must have been bound by $let, $map or $filter.
+_SYSTEM_VARIABLES = frozenset([
+    'NOW', 'CLUSTER_TIME', 'REMOVE', 'DESCEND', 'PRUNE', 'KEEP', 'SEARCH_META', 'USER_ROLES'])
+
+
 class _Parser(object):
     """Helper to parse expressions within the aggregate pipeline."""
 
@@ -321,10 +327,14 @@ class _Parser(object):
     def _parse_basic_expression(self, expression):
         if isinstance(expression, str) and expression.startswith('$'):
             if expression.startswith('$$'):
-                return helpers.get_value_by_dot(dict({
+                variables = dict({
                     'ROOT': self._doc_dict,
                     'CURRENT': self._doc_dict,
-                }, **self._user_vars), expression[2:], can_generate_array=True)
+                }, **self._user_vars)
+                name = expression[2:].split('.')[0]
+                if name not in variables and name not in _SYSTEM_VARIABLES:
+                    raise OperationFailure('Use of undefined variable: %s' % name)
+                return helpers.get_value_by_dot(variables, expression[2:], can_generate_array=True)
             return helpers.get_value_by_dot(self._doc_dict, expression[1:], can_generate_array=True)
         if isinstance(expression, list):
             # An array constant of the pipeline: each document gets its own copy.
